@@ -98,9 +98,19 @@ def _ptags(p):
                 padsize=p["padsize"], ncsrc=len(p["csrc"]), ext_empty_block=p["x"] and body == 0)
 
 
+def _giant_legacy(rng, words):
+    """A legal legacy extension of >= 2^14 words (its byte length does not fit 16 bits)."""
+    p = _rand_packet(rng)
+    p.update(x=True, profile=0x4321, exts=[dict(id=0, val=[(7 * i + 3) % 251 + 1 for i in range(4 * words)])], payload=[9, 8, 7], pad=False, padsize=0)
+    return p
+
+
 def rand_c01(seed, tier, cases=None):
     rng = random.Random(seed * 7919 + 1)
     out = []
+    for words in (16384, 16385):
+        p = _giant_legacy(rng, words)
+        out.append(dict(fam="C01", p=p, tags=_ptags(p), dsts=[], sites=[], **{"class": "giant_legacy"}))
     for _ in range(800 if tier == "quick" else 20000):
         p = _rand_packet(rng)
         out.append(dict(fam="C01", p=p, tags=_ptags(p), dsts=[], sites=[], **{"class": "rand_" + _ptags(p)["layout"]}))
@@ -206,6 +216,10 @@ def _py_image(p, rng):
 def rand_c03(seed, tier, cases=None):
     rng = random.Random(seed * 7919 + 3)
     out = []
+    for words in (16384, 16385, 32768):
+        p = _giant_legacy(rng, words)
+        img, n, term = _py_image(p, rng)
+        out.append(dict(fam="C03", kind="image", bytes=img, prev=[], p=p, n=n, term=False, tags=_ptags(p), **{"class": "giant_legacy_image"}))
     for _ in range(600 if tier == "quick" else 15000):
         p = _rand_packet(rng)
         if p["x"] and p["profile"] not in (0xBEDE, 0x1000) and 0x1000 < p["profile"] <= 0x100F:
@@ -536,7 +550,7 @@ prop(dict(
 # ---------------------------------------------------------------- C08
 C08_KINDS = ["g711", "g722", "opus", "h264", "h264_nostap", "h265", "h265_donl", "h265_skipagg", "h265_donl_skipagg", "vp8", "vp8pid", "vp9", "vp9_flex", "av1"]
 C08_SHAPES = {"h264": ["annexb3", "annexb4", "annexb_mixed", "h264_params", "h264_slice", "h264_sps", "h264_pps"], "h265": ["h265nals", "annexb4", "annexb3"],
-              "av1": ["obu", "obu_nosize_last", "obu_ext", "obu_bad"], "vp9": ["vp9_key", "vp9_inter", "vp9_p1", "vp9_p3", "vp9_existing"]}
+              "av1": ["obu", "obu_nosize_last", "obu_ext", "obu_bad", "obu_two"], "vp9": ["vp9_key", "vp9_inter", "vp9_p1", "vp9_p3", "vp9_existing"]}
 
 
 def _shapes_for(kind):
@@ -572,7 +586,7 @@ prop(dict(
     class_of=lambda c: c["class"],
     nontrivial=lambda c: any(x["len"] > 0 and x["shape"] not in ("nil", "empty") for x in c["calls"]),
     mandatory=["g711_mtu_degenerate", "opus_mtu_small", "h264_mtu_degenerate", "h264_history", "h264_params_then_slice", "h265_donl_mtu_small", "h265_history",
-               "vp8pid_mtu_degenerate", "vp9_mtu_small", "vp9_flex_mtu_large", "av1_mtu_degenerate", "av1_history", "av1_rand", "h265_rand"],
+               "vp8pid_mtu_degenerate", "vp9_mtu_small", "vp9_flex_mtu_large", "av1_mtu_degenerate", "av1_history", "av1_rand", "h265_rand", "av1_fragment_edge"],
     rule="TLC enumerates (payloader kind x options) x MTU {0..40, 127-129, 255, 256, 1200, 16383-16385, 65535} x input shape (nil, empty, pattern, zeros, 0xFF, start codes and "
          "codec-shaped seeds: Annex-B with 3/4-byte start codes and SPS/PPS, HEVC NAL streams, OBU streams with/without size fields / extension headers / bad sizes, VP9 key/inter/"
          "show-existing headers) x length, thinned by a stride in the quick tier, plus three-call histories and targeted SPS/PPS-across-calls histories; after every call the "
@@ -656,4 +670,75 @@ prop(dict(
          "mode x start id {0,1,126,127,128,129,32766,32767} (start id set through the verif accessor); seeded random histories are added; distinct = distinct case records",
     assumptions=COMMON_ASSUME + ["picture id 0 is accepted in absent or 7-bit form (not observably different through VP8Packet)",
                                  "the payloader's start picture id is set through a verif-tagged accessor"],
+))
+
+
+# ---------------------------------------------------------------- C10 / C15
+def _nal(t, nri, n, rng):
+    body = [rng.randint(1, 255) for _ in range(n - 1)]
+    return [nri << 5 | t] + body
+
+
+def rand_c10(seed, tier, cases=None):
+    rng = random.Random(seed * 7919 + 10)
+    out = []
+    for _ in range(500 if tier == "quick" else 12000):
+        mtu = rng.choice([3, 4, 5, 6, 9, 17, 33, 100, 1200, rng.randint(3, 300)])
+        stap = rng.random() < 0.6
+        calls = []
+        pending = []
+        for _c in range(rng.randint(1, 3)):
+            units, scs = [], []
+            for _u in range(rng.randint(1, 3)):
+                k = rng.random()
+                if k < 0.2 and not pending:
+                    a, b = _nal(7, 3, rng.randint(2, mtu + 3), rng), _nal(8, 3, rng.randint(2, mtu + 3), rng)
+                    pair = [a, b] if rng.random() < 0.5 else [b, a]
+                    units.append(pair[0]); scs.append(rng.choice([3, 4]))
+                    pending = [pair[1]]
+                    continue
+                if pending:
+                    units.append(pending.pop()); scs.append(rng.choice([3, 4]))
+                    continue
+                t = rng.choice([1, 5, 6, 9, 12, 23, 1, 5])
+                units.append(_nal(t, rng.randint(0, 3), rng.choice([2, 3, mtu - 1, mtu, mtu + 1, 2 * mtu, rng.randint(2, 3 * mtu + 2)]), rng)); scs.append(rng.choice([3, 4]))
+            calls.append(dict(units=[[max(1, x) if i else x for i, x in enumerate(u)] for u in units], scs=scs))
+        if pending:
+            calls.append(dict(units=[pending.pop(), _nal(5, 2, 6, rng)], scs=[3, 3]))
+        out.append(dict(fam="C10", kind="payloader", mtu=mtu, stapa=stap, calls=calls, **{"class": "rand_payloader"}))
+    return out
+
+
+prop(dict(
+    id="C10", fam="C10",
+    mc=[("H264MC.tla", "H264MC.cfg", {"thorough": {"Sizes": "{2, 3, 5, 6, 7, 8, 9, 12, 13, 14, 21}"}}), ("H264MC.tla", "H264MCNoResync.cfg", {}, "expect_violation")],
+    gen=[("H264Gen.tla", "H264Gen.cfg", {"thorough": {"Rich": "TRUE", "Mtus": "{3, 4, 5, 6, 7, 8, 16, 40, 100, 1200}"}})],
+    rand=rand_c10,
+    trace=("H264Trace.tla", "H264Trace.cfg"),
+    shards={"quick": 2, "thorough": 12},
+    workers=16,
+    nontrivial=lambda c: True,
+    mandatory=["one_unit_fragmented", "one_unit_single", "one_unit_single_param", "one_unit_fragmented_dropped", "params_one_call", "params_across_calls",
+               "params_across_calls_stap_exceeds_mtu", "params_with_aud_filler", "params_one_call_nostap", "decoder_stap", "decoder_fu4", "decoder_fu_empty_fragments", "rand_payloader"],
+    rule="TLC enumerates payloader scenarios: one unit of every type {1,5,6,7,8,9,12,23} x sizes {2,3,MTU-2..MTU+2,2MTU-3..2MTU,3MTU} x MTU {3,4,5,8,16,40,1200} x StapA on/off; SPS/PPS "
+         "pairs (either order) and a slice in one call, split over two and three calls, and with AUD/filler around them, with sizes that make the STAP-A fit or exceed the MTU; decoder streams "
+         "from the independent encoder (singles, STAP-A groupings, FU-A with 2/4 fragments, empty fragments, one-byte tail); every payloader output is also fed to real Annex-B and AVC receivers; "
+         "seeded random scenarios are added; distinct = distinct case records",
+    assumptions=COMMON_ASSUME + ["unit bytes contain no zero byte (Annex-B well-formedness the splitter relies on); parameter sets come as SPS/PPS pairs"],
+))
+
+prop(dict(
+    id="C15", fam="C15",
+    mc=[("H264MC.tla", "H264MC.cfg", {}), ("H264MC.tla", "H264MCNoResync.cfg", {}, "expect_violation")],
+    gen=[("LossGen.tla", "LossGen.cfg", {"thorough": {"MaxA": "10", "Rich": "TRUE"}})],
+    trace=("LossTrace.tla", "LossTrace.cfg"),
+    shards={"quick": 2, "thorough": 14},
+    workers=16,
+    nontrivial=lambda c: c["mask"] not in (0,),
+    mandatory=["h264_fu2_a", "h264_fu3_a", "h264_fu5_a", "h264_fu6_a_garbage", "h264_unfragmented_a", "av1_real_payloader", "av1_real_payloader_garbage", "h264_real_payloader", "h264_avc_real_payloader"],
+    rule="TLC enumerates every delivered subset (mask) of frame A's packets (up to MaxA = 6 quick / 10 thorough packets) x frame A shapes (FU-A of 2/3/5/MaxA fragments, single, STAP-A, "
+         "two fragmented units) x garbage prefixes x intact frame B shapes (FU-A, single, STAP-A + FU-A) for H264 in Annex-B and AVC mode from the independent encoder, and the same masks "
+         "over frames produced by the real AV1 and H264 payloaders; the loss invariant is model-checked on the reference receiver and a no-resync specification mutant must violate it; "
+         "non-trivial = at least one packet of frame A delivered; distinct = distinct case records",
+    assumptions=COMMON_ASSUME + ["the oracle is the statement's: a fresh real depacketizer fed frame B only"],
 ))
